@@ -22,6 +22,7 @@ def run(R):
               "escaped star, *b, ??, escaped backslash, escaped letter + *, escaped period + *, trailing backslash; one or two components; with / without trailing slash; absolute and repeated-slash forms of all one-component and 36 two-component patterns); exhaustive; distinct_nontrivial = "
               "distinct (tree, pattern) pairs with a non-empty expected result")
     R.assumptions = ["patterns are evaluated in a scratch directory; absolute patterns are prefixed with its path (ROOT in the spec)",
+                     "every relative single-slash pattern is also written as a word (escapes as backslash quotations) and expanded with ExecEnv.Expand: the matches in order, or the word itself when nothing matches",
                      "a result keeps the separators of the pattern as written (a//b gives a//b); leading repeated slashes are not generated",
                      "'.' and '..' are optional members for components that begin with a literal period",
                      "a component followed by a slash selects directories, following symbolic links (a dangling link is not a directory)"]
@@ -55,9 +56,10 @@ def run(R):
         ex = dict(tree=[("/".join("".join(n) for n in e["path"]), e["kind"]) for e in c["entries"]], pattern=p["obs"]["text"],
                   expected=["/".join("".join(n) for n in r) for r in p["exp"]],
                   observed=["/".join("".join(n) for n in r) for r in p["obs"]["res"]],
-                  flags={k2: p["obs"][k2] for k2 in ("err", "sorted", "nodup", "lstat", "slashok", "panic", "dots")})
+                  flags={k2: p["obs"][k2] for k2 in ("err", "sorted", "nodup", "lstat", "slashok", "panic", "dots", "xerr", "xsorted", "xdots")},
+                  as_word=dict(expected=["".join(x) for x in p.get("expw", [])], observed=["".join(x) for x in p["obs"].get("xw", [])]))
         R.violation("Glob differs from Glob.tla: %s" % json.dumps(ex, ensure_ascii=False)[:1500],
-                    dict(kind="glob", case=dict(tree=c["tree"], entries=c["entries"], pats=[{k2: p[k2] for k2 in ("comps", "slash", "abs", "rep", "exp", "expstr", "exp2", "expstr2")}])),
+                    dict(kind="glob", case=dict(tree=c["tree"], entries=c["entries"], pats=[{k2: p[k2] for k2 in ("comps", "slash", "abs", "rep", "exp", "expstr", "exp2", "expstr2", "expw", "expw2")}])),
                     coords=dict(pattern=p["obs"]["text"]))
     R.exhaustive = R.tier != "quick"
     R.evaluations = sum(len(c["pats"]) for c in obs)
